@@ -1361,3 +1361,34 @@ def dependency_on_evolution_without_effect(case, outcome, atoms):
         return atoms
     return [a for a in atoms if not (a[0] == 'rejected_without_command_error' and
                                      a[1] == 'AssertionError' and 'graph.py' in str(a[2]))]
+
+
+# ---------------------------------------------------------------------------
+# C14
+# ---------------------------------------------------------------------------
+
+def _awkward_initial(init):
+    if isinstance(init, dict):
+        return 'datetime' in init or 'decimal' in init
+    if isinstance(init, str):
+        return any(ch in init for ch in "'\\%")
+    return False
+
+
+@explainer
+def preview_parameters_are_not_sql_literals(case, outcome, atoms):
+    """SQLExecutor.run_sql(capture=True) substitutes parameters with
+    quote_sql_param(): strings are escaped with a backslash (it\\'s) instead of
+    doubling the quote, and non-string values such as datetimes and Decimals
+    are interpolated unquoted, so the previewed statement is not the statement
+    (with its parameters) that execution binds."""
+    h = case.get('history') or {}
+    trigger = False
+    for s_ in h.get('steps', []):
+        if s_['type'] == 'evolve':
+            for m in s_['seq']:
+                if m['kind'] in ('AddField', 'ChangeField') and _awkward_initial(m.get('initial')):
+                    trigger = True
+    if not trigger:
+        return atoms
+    return [a for a in atoms if not (a[0] == 'preview_differs_from_execution' and a[2] == a[3])]
